@@ -248,6 +248,14 @@ pub fn evaluate(c: &Case, net: &Network, tp: &TrainParams, want_sig: bool) -> Ev
             "C02",
         ));
     }
+    if let Some((x, i, r)) = above {
+        // C13 states equality with the tightest restriction: an enforced limit above it breaks C13 as well
+        ev.viol.push((
+            format!("enforced-above-tightest@speed_points:{fam}"),
+            format!("at x={x} m the enforced limit is {i} m/s but the tightest posted limit is {r} m/s; profile={:?}", pts),
+            "C13",
+        ));
+    }
     if let Some((x, i, r)) = below {
         ev.viol.push((
             format!("enforced-below-tightest@speed_points:{fam}"),
